@@ -766,6 +766,9 @@ class BaseConverter:
             if not a.init:
                 # Not an `__init__` parameter, so it cannot be passed in.
                 continue
+            if isinstance(obj, AbcMapping) and a.name not in obj:
+                # Tested first so that a `__missing__` (defaultdict) is not triggered.
+                continue
             try:
                 val = obj[a.name]
             except KeyError:
